@@ -71,7 +71,7 @@ func c02Run(ctx *core.Ctx) {
 	}
 	nRand := 1200
 	if ctx.Thorough() {
-		nRand = 20000
+		nRand = 90000
 	}
 	vocab := append(append([]string{}, c02Lookalikes...), c02Baits...)
 	vocab = append(vocab, "\r\n", "text", ".", "\r", "\n", "..", "\r\n.")
